@@ -406,4 +406,14 @@ static inline void check_clauses(const Abs& pre, const Abs& post, const Ev& ev, 
     if (is_erase && r.ok) VF_REACH(8);
     if (T_TTL != 0 && n_exp_pre > 0) VF_REACH(9);
     if (T_TTL != 0 && resident && !live_i) VF_REACH(10);
+#if T_POLICY == P_RR
+    // C15 (iii): every resident position can be the victim (each of these must be reachable for some draw)
+    if (evicting && n_gone == 1)
+    {
+        if (gone == 0) VF_REACH(20);
+        if (HCAP > 1 && gone == 1) VF_REACH(21);
+        if (HCAP > 2 && gone == 2) VF_REACH(22);
+        if (HCAP > 3 && gone == 3) VF_REACH(23);
+    }
+#endif
 }
